@@ -473,3 +473,110 @@ def r187(ctx, rep):
                 rep.finding("R18.7", m, "RADIUS_SUCCESS", sm.lineno, "status 0 is issued outside the test resolution <= radius_final")
     if n < 1:
         raise AnalysisError("no RADIUS_SUCCESS site in minimize")
+
+
+# ---------------------------------------------------------------------------
+def r1810(ctx, rep):
+    """The index handed to the geometry step is never the centre: it comes from
+    get_index_to_remove() executed after the last change of the interpolation
+    set / of the best index, on every path that reaches the geometry step
+    (path-sensitive in the flag that guards the geometry step)."""
+    from .. import tables as T
+    m = ctx.func(T.MINIMIZE)
+    cfg = ctx.cfg(m)
+    gs = [ev for ev in ctx.events(m) if ev.kind == "call" and any(t.kind == "repo" and t.name == f"{TR}.get_geometry_step" for t in ev.targets)]
+    if not gs:
+        raise AnalysisError("minimize: call of get_geometry_step not found")
+    g_call = gs[0].node
+    if not (g_call.args and isinstance(g_call.args[0], ast.Name)):
+        raise AnalysisError("minimize: index argument of get_geometry_step is not a plain variable")
+    kvar = g_call.args[0].id
+    g_node = cfg.node_containing(g_call)
+    # the flag that guards the geometry step
+    guards = [c for c in enclosing_context(gs[0].stmt, m.node) if c[0] == "if-true" and isinstance(c[1], ast.Name)]
+    flag = guards[0][1].id if guards else None
+    fresh_q = f"{TR}.get_index_to_remove"
+    stale_q = {f"{TR}.set_best_index", "cobyqa.models:Models.update_interpolation", f"{TR}.increase_penalty", f"{TR}.decrease_penalty"}
+    calls_at = {}
+    for ev in ctx.events(m):
+        if ev.kind == "call":
+            nid = cfg.node_containing(ev.node)
+            for t in ev.targets:
+                if t.kind == "repo":
+                    calls_at.setdefault(nid, set()).add(t.name)
+
+    # a second flag: `if enhance_resolution:` guards decrease_penalty(); it is defined as
+    # `.. and not improve_geometry`, so both flags are never true together
+    eflag = None
+    for node in ast.walk(m.node):
+        if isinstance(node, ast.If) and isinstance(node.test, ast.Name) and node.test.id != flag:
+            if any(isinstance(x, ast.Call) and isinstance(x.func, ast.Attribute) and x.func.attr in ("decrease_penalty", "enhance_resolution") for b in node.body for x in ast.walk(b)):
+                eflag = node.test.id
+
+    def transfer(node, state, label):
+        out = set()
+        for fresh, g, e in state:
+            names = calls_at.get(node.id, set())
+            if label != "exc":
+                if names & stale_q:
+                    fresh = False
+                if node.kind == "stmt" and isinstance(node.ast, ast.Assign) and fresh_q in names and any(kvar in {x.id for x in ast.walk(t) if isinstance(x, ast.Name)} for t in node.ast.targets):
+                    fresh = True
+                if node.kind == "stmt" and isinstance(node.ast, (ast.Assign, ast.AugAssign)):
+                    tg = node.ast.targets if isinstance(node.ast, ast.Assign) else [node.ast.target]
+                    v = node.ast.value
+                    if flag and any(isinstance(t, ast.Name) and t.id == flag for t in tg):
+                        if isinstance(v, ast.Constant) and v.value is False:
+                            g = "F"
+                        else:
+                            g = "?"
+                            if e == "N":
+                                e = "?"       # the relation to the other flag no longer holds
+                    if eflag and any(isinstance(t, ast.Name) and t.id == eflag for t in tg):
+                        if isinstance(v, ast.Constant) and v.value is False:
+                            e = "F"
+                        elif isinstance(v, ast.BoolOp) and isinstance(v.op, ast.And) and any(isinstance(x, ast.UnaryOp) and isinstance(x.op, ast.Not) and isinstance(x.operand, ast.Name) and x.operand.id == flag for x in v.values):
+                            e = "N"
+                        else:
+                            e = "?"
+                if node.kind == "test" and isinstance(node.ast, ast.If) and isinstance(node.ast.test, ast.Name):
+                    if flag and node.ast.test.id == flag:
+                        if label == "true" and g == "F":
+                            continue      # infeasible: the flag is False on this path
+                        if label == "false":
+                            g = "F"
+                    if eflag and node.ast.test.id == eflag:
+                        if label == "true":
+                            if e == "F":
+                                continue
+                            if e == "N":
+                                g = "F"   # enhance_resolution implies not improve_geometry
+                            e = "T"
+                        if label == "false":
+                            if e == "T":
+                                continue
+                            e = "F"
+            out.add((fresh, g, e))
+        return frozenset(out) if out else None
+
+    states = cfg.solve_forward(frozenset({(False, "F", "F")}), transfer, lambda a, b: a | b)
+    st = states.get(g_node)
+    desc = f"minimize:{gs[0].line} get_geometry_step({kvar}, ..)"
+    if st is None:
+        raise AnalysisError("minimize: the geometry step is unreachable in the control-flow graph")
+    if all(x[0] for x in st):
+        rep.ok("R18.10", desc + f": `{kvar}` is recomputed by get_index_to_remove() after the last change of the set on every path")
+    else:
+        rep.bad("R18.10", desc)
+        rep.finding("R18.10", m, f"get_geometry_step({kvar})", gs[0].line,
+                    f"on some path `{kvar}` still holds the slot chosen before the last update of the interpolation set / best index (get_index_to_remove() is skipped there): "
+                    "the slot can be the one of the new centre, so the geometry step replaces the centre of the trust region")
+
+
+_old_run18 = run
+
+
+def run(ctx, rep):  # noqa: F811
+    _old_run18(ctx, rep)
+    rep.rule("R18.10", "the index handed to the geometry step is recomputed after the last change of the set on every path (path-sensitive in the guarding flag)")
+    r1810(ctx, rep)
